@@ -42,6 +42,11 @@ NoBusy(v, s)     == {0}
 BusyExport(v, s) == IF s \in FamBusy(v) THEN {0, LongBusy} ELSE {0}
 BusyC(v, s)      == IF v = "impatient" THEN {LongBusy} ELSE IF v = "own" THEN BusyExport(v, s) ELSE {0}
 
+\* one relative item disposed by thread F while the loop is stopped after having run (stage 2 has run, the timer is
+\* armed, the loop stops at PauseAt = 1 < due; dispose at 1 or - w = 1 - at the due time; then the loop is run again)
+CStp == {<<"pre", "stp">>, <<"F", "stp">>, <<"L", "stp">>}
+FamPause(v) == One(Both, {2}, {0, 1}, CStp)
+
 (* ---- families of the negative controls (small, each contains a refuting scenario) --------- *)
 ControlFam(v) == CASE v = "caller" -> One({"ts"}, {0, 1}, {0}, CForeign)
                    [] v = "early"  -> One(Both, {1}, {0}, CNone)
@@ -49,13 +54,14 @@ ControlFam(v) == CASE v = "caller" -> One({"ts"}, {0, 1}, {0}, CForeign)
                    [] v = "nowake" -> One({"ts"}, {0, 1}, {0}, {<<"F", "none">>})
                    [] v = "inline" -> One({"ts"}, {0}, {0}, CNone)
                    [] v = "impatient" -> FamBusy(v)
+                   [] v = "spent" -> One({"ts"}, {2}, {0}, CStp)
 
 (* ---- design families ------------------------------------------------------------------------ *)
 \* thorough, run 1: every one-item scenario, plus the controls
-FamOne(v) == IF v = "own" THEN AllOne ELSE ControlFam(v)
+FamOne(v) == IF v = "own" THEN AllOne \cup FamPause(v) \cup One(Both, {1, 2}, {0, 1, 2}, CStp) ELSE ControlFam(v)
 \* quick, run 1: the one-item scenarios with delays 0, 1 and waits 0, 1 (dispose before / at the due time), plus the controls
 QuickOne == One(Both, {0, 1}, {0, 1}, TsCombos)          \* (contains FamBusy: the design runs use BusyExport)
-FamOneQuick(v) == IF v = "own" THEN QuickOne ELSE ControlFam(v)
+FamOneQuick(v) == IF v = "own" THEN QuickOne \cup FamPause(v) ELSE ControlFam(v)
 \* quick, run 2: a relative and an immediate item on the thread-safe scheduler, both disposed by the foreign thread
 FamTwoQuick(v) == Scns(ItemScn({"ts"}, {1}, {0}, CForeign), ItemScn({"ts"}, {0}, {0}, {<<"F", "F">>}))
 \* one thread-safe item handled by a foreign thread (performed with and without a loop of its own in that thread)
@@ -64,8 +70,8 @@ FamOwnLoop(v) == One({"ts"}, {0, 1}, {0, 1}, {<<"pre", "F">>, <<"F", "F">>, <<"L
 OwnExport(v, s) == IF s \in FamOwnLoop(v) THEN {{}, {"F"}} ELSE {{}}
 \* the families the replayer performs (item 2 may be absent: they contain the one-item scenarios)
 TwoSmall == Scns(ItemScn(Both, {0, 1}, {0, 1}, CSmall), ItemScn(Both, {0, 1}, {0, 1}, CSmall))
-FamExportQuick(v) == QuickOne \cup TwoSmall
-FamExport(v) == AllOne \cup TwoSmall
+FamExportQuick(v) == QuickOne \cup FamPause(v) \cup TwoSmall
+FamExport(v) == AllOne \cup FamPause(v) \cup One(Both, {1, 2}, {0, 1, 2}, CStp) \cup TwoSmall
 \* thorough: two items, both schedulers
 FamTwo(v) == Scns(ItemScn(Both, {0, 1, 2}, {0, 1, 2}, TsCombos), ItemScn(Both, {0, 1}, {0, 1}, CSmall))
 \* three threads: a second foreign thread G
@@ -97,15 +103,16 @@ D_CallerInsideAnotherLoop == (variant = "caller" /\ own # {}) => NoStartAfterDis
 
 (* ---- negative controls ---------------------------------------------------------------------------- *)
 Reg(v) == CASE v = "caller" -> 11 [] v = "early" -> 12 [] v = "lose" -> 13 [] v = "inline" -> 14 [] v = "nowake" -> 15
-            [] v = "impatient" -> 16 [] OTHER -> 17
+            [] v = "impatient" -> 16 [] v = "spent" -> 17 [] OTHER -> 18
 Broken(v) == CASE v = "caller" -> ~NoStartAfterDisposeReturned
                [] v = "early"  -> ~NotEarly
                [] v = "lose"   -> ~NoLostAction
                [] v = "nowake" -> ~NoLostAction
                [] v = "impatient" -> ~NoStartAfterDisposeReturned
+               [] v = "spent" -> ~NoStartAfterDisposeReturned
                [] v = "inline" -> ~OnLoopThread
                [] OTHER        -> FALSE
-ASSUME \A r \in 11..17 : TLCSet(r, FALSE)
+ASSUME \A r \in 11..18 : TLCSet(r, FALSE)
 \* CONSTRAINT: a fault variant is followed until its invariant breaks
 ControlPrune == Own \/ (IF Broken(variant) THEN TLCSet(Reg(variant), TRUE) /\ FALSE ELSE TRUE)
 \* POSTCONDITION
